@@ -805,6 +805,24 @@ pub fn families(nmax: usize) -> Vec<(String, Vec<Op>)> {
         out.push((format!("big: {} barriers", n), (0..n).flat_map(|i| vec![free(&nm(i)), Op::Barrier]).chain([free("x"), free("y"), Op::Barrier, free("z")]).collect()));
         out.push((format!("big: {} thread-local systems", n), (0..n).map(|_| Op::Tl(SysSpec { name: String::new(), reads: vec![], writes: vec![], time: 3, deps: vec![] })).chain([free("x")]).collect()));
     }
+    // a stage of f groups in front of a barrier; behind it a heavy group, fillers and a light group at index g; then a
+    // system that joins the light group for balance and also writes what front group x writes (stage indices that are
+    // relative to the barrier in one place and absolute in another)
+    for f in 2..=3usize {
+        for g in 1..=3usize {
+            for x in 0..f {
+                let mut v: Vec<Op> = (0..f).map(|i| s(format!("f{}", i), &[], &[i as u8], 3, vec![])).collect();
+                v.push(Op::Barrier);
+                v.push(s("q0".into(), &[], &[4], 5, vec![]));
+                for j in 1..g {
+                    v.push(s(format!("fill{}", j), &[], &[], 1, vec![]));
+                }
+                v.push(s("q1".into(), &[], &[5], 1, vec![]));
+                v.push(s("joiner".into(), &[], &[5, x as u8], 2, vec![]));
+                out.push((format!("joiner-behind-barrier(front {} groups, light group at index {}, shares resource {} with the front)", f, g, x), v));
+            }
+        }
+    }
     for n in 1..=nmax {
         let nm = |i: usize| format!("s{}", i);
         out.push((format!("writers({})", n), (0..n).map(|i| s(nm(i), &[], &[0], 3, vec![])).collect()));
@@ -824,6 +842,25 @@ pub fn families(nmax: usize) -> Vec<(String, Vec<Op>)> {
             format!("two-lanes({})", n),
             (0..n).map(|i| if i % 2 == 0 { s(nm(i), &[], &[0], 1 + (i % 5) as u8, vec![]) } else { s(nm(i), &[], &[1], 1 + ((i / 2) % 5) as u8, vec![]) }).collect(),
         ));
+        if n <= 7 {
+            // batches nested n deep (alternating hand-written / MultiDispatcher controllers, every level dispatching its
+            // inner plan twice): the innermost level writes A and has a thread-local system, the outermost level has a
+            // reader of A behind the batch; a level in the middle holds only a barrier besides the next batch
+            let mut inner: Vec<Op> = vec![s("deep".into(), &[], &[0], 3, vec![]), Op::Tl(SysSpec { name: String::new(), reads: vec![], writes: vec![], time: 3, deps: vec![] })];
+            for lvl in 0..n {
+                let mut v = vec![Op::Batch(BatchSpec { name: format!("b{}", lvl), deps: vec![], ctrl: if lvl % 3 == 2 { CtrlData::ReadC } else { CtrlData::Unit }, times: 2, multi: lvl % 2 == 1, fetch_data: false, inner })];
+                if lvl == n / 2 {
+                    v.insert(0, Op::Barrier);
+                }
+                inner = v;
+            }
+            let mut top = inner.clone();
+            top.push(s("out".into(), &[0], &[], 3, vec![]));
+            out.push((format!("nested-batches({}) + outer reader", n), top));
+            let mut top = vec![s("out".into(), &[0], &[], 1, vec![])];
+            top.extend(inner);
+            out.push((format!("outer reader + nested-batches({})", n), top));
+        }
         // n effective barriers: n resource-less systems each followed by a barrier, then two free systems, a barrier
         // and one more; the same with every barrier doubled, and with a leading barrier
         {
